@@ -403,6 +403,9 @@ const MAX_COMMIT_CONCURRENCY: usize = 64;
 /// A full value stored within the trie.
 pub type Value = Vec<u8>;
 
+/// Source of the per-handle base of [`Shared::commit_count`].
+static NEXT_HANDLE_ID: std::sync::atomic::AtomicU64 = std::sync::atomic::AtomicU64::new(1);
+
 struct Shared {
     /// The current root of the trie.
     root: Root,
@@ -591,7 +594,10 @@ impl<T: HashAlgorithm> Nomt<T> {
             shared: Arc::new(Mutex::new(Shared {
                 root: Root(root),
                 last_commit_marker: None,
-                commit_count: 0,
+                // distinct per handle, so that a changeset prepared on another handle of the same
+                // directory (e.g. before a reopen) can never match.
+                commit_count: NEXT_HANDLE_ID.fetch_add(1, std::sync::atomic::Ordering::Relaxed)
+                    << 32,
             })),
             access_lock: Arc::new(RwLock::new(())),
             metrics,
